@@ -140,10 +140,15 @@ CHECKS = {
           'linear and quadratic parts, flat and cylindrical branch); Panel.uvw/strain/stress and PanelAssembly.uvw/strain/stress are executed symbolically from '
           'the real source over point-set shapes and option combinations: every reported entry is the field of the requested point, in order and shape, '
           'computed from the caller\'s amplitude vector (for assemblies: the panel\'s own slice) and the panel definition, with NLterms forwarded, and the '
-          'stress resultants are the laminate matrix times exactly those strains.'),
-    design_ref='DESIGN.md section 4 (C11)',
-    note=('real arithmetic; numpy reshape/ravel/meshgrid run natively on symbolic object arrays (A4); the padding / prange chunking of fuvw and fstrain and the '
-          'w-only field module are NOT yet under contract (thread-count independence is therefore not claimed); Python-layer point sets are bounded (3 and 6 points); '
+          'stress resultants are the laminate matrix times exactly those strains.  The wrappers fuvw / fstrain of both field modules (padding to a multiple of '
+          'num_cores, reshape, one row per prange iteration, sign of the rotations, flattening, [:size]) are executed symbolically with arrays as index functions '
+          'for EVERY number of points (size = q*num_cores + r, q, r, num_cores symbolic, both padding branches): each result has exactly size entries and entry k '
+          'is the point kernel\'s value at (xs[k], ys[k]) -- an expression without num_cores or k\'s position, hence independent of thread count, point count and '
+          'order; each iteration writes only the row of its own loop index; cfw/cfwx/cfwy of the w-only module are proved like the main kernels.'),
+    design_ref='DESIGN.md section 4 (C11), 10.8',
+    note=('real arithmetic; numpy hstack/reshape/ravel/slice on C-contiguous arrays modelled as row-major index maps (assumption), in the Python layer they run '
+          'natively on symbolic object arrays (A4); prange(n) is taken to visit every index once (OpenMP scheduling itself is outside the contract; the frame '
+          'obligation makes the order irrelevant); Python-layer point sets are bounded (3 and 6 points); '
           '6 known findings (quadratic strain terms), 1 fixed defect (NLterms not forwarded by Panel.stress)'),
     technique='contracts + symbolic execution (generic-iteration loop schema with sum terms); exact normal form'),
  'C13': dict(
